@@ -132,6 +132,8 @@ structure Cfg where
   flushInvalidatedLoggers : Bool := true   -- sinks of loggers marked for removal (not erased yet) are still flushed (repaired, F12)
   cleanupKeepsUnreported : Bool := true   -- the clean-up leaves a context whose failure counter is not reported yet (repaired, F24)
   replayCatchesPerEvent : Bool := true   -- a backtrace replay catches a sink exception per stored event, reports it and goes on (repaired, F26)
+  flushInterval : Nat := 0               -- `sink_min_flush_interval` in ns; 0 = the idle pass always flushes
+  flushBeforeLoggerErase : Bool := true  -- `_cleanup_invalidated_loggers` flushes the sinks before it erases loggers (repaired, F33)
   deriving Repr
 
 structure BSt where
@@ -159,6 +161,7 @@ structure BSt where
   reported : Nat := 0                 -- sum of the counts reported through "dropped"/"blocked" notifications
   popLog : List Stmt := []            -- every event popped by the backend, newest first (global processing order)
   flagLog : List (Nat × Nat) := []    -- (flag, length of `log` when it was raised), newest first
+  lastFlush : Nat := 0                -- `_last_sink_flush_time` (read only when `cfg.flushInterval ≠ 0`)
 
 /-! ### small helpers -/
 
